@@ -57,7 +57,7 @@ func jsonQueries(kind string, o interface{}) string {
 func suiteJSON(c *Ctx) {
 	c.rep.Rule = "case = one reachable state of one of the 10 variants (random history incl. removals, partially filled heaps, single-column sketches, evictions) exported and imported into an instance holding other state; non-trivial = non-empty payload; distinct by (kind, history)"
 	kinds := []eqKind{eqCMS(false), eqCMS(true), eqHLL(false), eqHLL(true), eqBloom(false), eqBloom(true), eqCuckoo(false), eqCuckoo(true), eqTopK(false), eqTopK(true)}
-	rounds := c.scale(10, 100)
+	rounds := c.scale(10, 60)
 	for r := 0; r < rounds; r++ {
 		for _, k := range kinds {
 			for v := 0; v <= k.nparams; v++ {
@@ -73,6 +73,9 @@ func suiteJSON(c *Ctx) {
 }
 
 func jsonCase(c *Ctx, k eqKind, variant int) {
+	if k.redis {
+		c.mr.FlushAll() // cases are independent; keeps the database dumps small
+	}
 	hist := randHist(c)
 	a := k.build(c, variant)
 	if a == nil {
@@ -126,10 +129,15 @@ func jsonCase(c *Ctx, k eqKind, variant int) {
 	if r1.panicked || !ab || !ba {
 		c.fail([]string{"C10", "C17"}, k.name+"-roundtrip-equals", fmt.Sprintf("%s: imported copy not Equal to the original (%v,%v,%s)", k.name, ab, ba, r1.panicVal), replay)
 	}
-	// further updates in lock-step
-	more := randHist(c)
-	k.feed(c, a, more)
+	// further updates: first on the copy alone - the original must not notice -, then on the
+	// original, after which both must agree again
+	more := append(randHist(c), randHist(c)...)
 	k.feed(c, b, more)
+	if docA, _ := k.export(a); string(docA) != string(doc) {
+		c.fail([]string{"C10", "C19"}, k.name+"-copy-not-independent", k.name+": updating the imported copy changed what the original exports", replay)
+		return
+	}
+	k.feed(c, a, more)
 	sa, _ = k.absStr(a)
 	sb, _ = k.absStr(b)
 	if sa != sb || jsonQueries(k.name, a) != jsonQueries(k.name, b) {
